@@ -145,6 +145,60 @@ def check_equation(name, cls, mon, viol, rng):
             bad(r[0], 'array name misspelt as %r: %s' % (wrong, r[1]),
                 dict(equation=name, misspelt=wrong))
     nf += check_self_source(name, cls, mon, bad, rng, d, s, imp, nosrc)
+    nf += check_repeated(name, cls, mon, bad, rng, d, s, imp, nosrc)
+    return nf
+
+
+def check_repeated(name, cls, mon, bad, rng, d, s, imp, nosrc):
+    """The same equation class on the same destination twice in one
+    evaluator (separate groups, one group, sub-groups of one group); the
+    second occurrence has a further source, which is incomplete, or a
+    misspelt one."""
+    from pysph.sph.equation import Group
+    if nosrc:
+        return 0
+    cname = cls.__name__
+    only_src = [n for n in sorted(s | imp) if n not in BASE]
+    if not only_src:
+        return 0
+
+    def arrays(skip=None):
+        return [make_array('dest', d | imp), make_array('src', s | imp),
+                make_array('src2', (s | imp) - ({skip} if skip else set()))]
+
+    def program(shape, second_sources):
+        e1 = ec.instantiate(cls, dest='dest', sources=('src',))
+        e2 = ec.instantiate(cls, dest='dest', sources=second_sources)
+        if shape == 'groups':
+            return [Group(equations=[e1]), Group(equations=[e2])]
+        if shape == 'one-group':
+            return [Group(equations=[e1, e2])]
+        return [Group(equations=[Group(equations=[e1]),
+                                 Group(equations=[e2])])]
+    shape = str(rng.choice(['groups', 'one-group', 'subgroups']))
+    stage, exc = stages(arrays(), program(shape, ('src', 'src2')))
+    if exc is not None:
+        return 0
+    nf = 0
+    n = only_src[int(rng.integers(len(only_src)))]
+    stage, exc = stages(arrays(skip=n), program(shape, ('src', 'src2')))
+    nf += 1
+    mon['faults_repeated'] = mon.get('faults_repeated', 0) + 1
+    r = judge(stage, exc, cname, n, 'repeated-equation')
+    if r:
+        bad(r[0], 'second occurrence of the equation on %r (%s) has the '
+            'further source src2, which lacks %r: %s' % ('dest', shape, n,
+                                                         r[1]),
+            dict(equation=name, array='src2', name=n, kind='repeated',
+                 shape=shape))
+    stage, exc = stages(arrays(), program(shape, ('src', 'scr2')))
+    nf += 1
+    mon['faults_repeated'] = mon.get('faults_repeated', 0) + 1
+    r = judge(stage, exc, cname, 'scr2', 'repeated-misspelt')
+    if r:
+        bad(r[0], 'second occurrence of the equation (%s) names a source '
+            '%r that does not exist: %s' % (shape, 'scr2', r[1]),
+            dict(equation=name, misspelt='scr2', shape=shape))
     return nf
 
 
@@ -346,6 +400,7 @@ def run(tier):
                         ('faults_explicit-source', 200),
                         ('faults_pair-symbol', 100),
                         ('faults_self-source', 100),
+                        ('faults_repeated', 100),
                         ('faults_stepper', 50), ('faults_misspelt', 100)):
         if m.counters.get(kind, 0) < least:
             v.inconclusive_because('%s = %d (< %d)' % (
